@@ -143,7 +143,9 @@ def _api(ctx, m, rule='C17.D2', only=None):
                 else:
                     ctx.violation(rule, '%s::%s' % (F, fname), norm(c), 'an aware stamp is re-interpreted as wall time',
                                   'localize() applied outside the naive-stamp branch', file=F, line=c.lineno, engine='E9')
-    ctx.floor('reader conversion sites', sites, 3 if not only else 1)
+    readers = [x for x in ('zincparser', 'jsonparser', 'grid_filter') if not only or x in only]
+    if readers:
+        ctx.floor('reader conversion sites', sites, len(readers))
     for modname in ('zincdumper', 'jsondumper'):
         if only and modname not in only:
             continue
@@ -162,18 +164,25 @@ def _api(ctx, m, rule='C17.D2', only=None):
         if not bad and okret and tzn and tzn[0].startswith('timezone_name(%s' % a):
             ctx.ob(rule, '%s.dump_date_time emits isoformat() of the value itself plus timezone_name(value)' % modname,
                    True, '%s:%d' % (F, fn.lineno))
-        else:
+        elif bad:
+            ctx.violation(rule, '%s::dump_date_time' % F, norm(bad[0]),
+                          'the written stamp denotes another instant/offset than the value: the value is converted with '
+                          '`%s` before it is written' % norm(bad[0])[:60],
+                          'dump_date_time converts the value instead of emitting isoformat() of the value itself', file=F,
+                          line=bad[0].lineno, engine='E9')
+        elif tzn and not any('%s.isoformat()' % a in r for r in rets) and any('isoformat' not in r for r in rets):
             ctx.violation(rule, '%s::dump_date_time' % F, '; '.join(rets),
-                          'the written stamp denotes another instant/offset than the value (or lacks its zone name)',
-                          'dump_date_time converts the value or does not emit isoformat() + zone name', file=F,
-                          line=fn.lineno, engine='E9')
+                          'the written stamp is not isoformat() of the value (or lacks its zone name)',
+                          'dump_date_time does not emit isoformat() + zone name', file=F, line=fn.lineno, engine='E9')
+        else:
+            ctx.error(rule, '%s.dump_date_time: shape `%s` not recognised; cannot decide' % (modname, '; '.join(rets)[:100]))
 
 
-def _timezone_name(ctx, m):
+def _timezone_name(ctx, m, rule='C17.D3'):
     try:
         fn = m.func('zoneinfo', 'timezone_name')
     except AnalysisError as e:
-        ctx.error('C17.D3', str(e))
+        ctx.error(rule, str(e))
         return
     dt = fn.args.args[0].arg
     body = body_wo_doc(fn)
@@ -181,24 +190,24 @@ def _timezone_name(ctx, m):
     bad, unknown, nc = X.escaping(fn)
     if bad:
         call, exc = bad[0]
-        ctx.violation('C17.D3', '%s::timezone_name' % FZ, norm(call),
+        ctx.violation(rule, '%s::timezone_name' % FZ, norm(call),
                       'a fixed-offset date-time such as 2021-03-28T02:30+05:45: `%s` raises %s (the wall time falls into a '
                       'DST gap/overlap of a scanned zone) instead of the writer answering with a zone or ValueError'
                       % (norm(call)[:70], exc),
                       'timezone_name may let %s escape; only ValueError is allowed' % exc, file=FZ, line=call.lineno,
                       engine='E8')
     else:
-        ctx.ob('C17.D3', 'no tabled call of timezone_name can raise anything but ValueError (%d calls, untabled: %s)'
+        ctx.ob(rule, 'no tabled call of timezone_name can raise anything but ValueError (%d calls, untabled: %s)'
                % (nc, sorted(set(unknown))[:6]), True, where)
     if isinstance(body[-1], ast.Raise) and norm(body[-1].exc).startswith('ValueError'):
-        ctx.ob('C17.D3', 'when no zone fits, timezone_name raises ValueError', True, '%s:%d' % (FZ, body[-1].lineno))
+        ctx.ob(rule, 'when no zone fits, timezone_name raises ValueError', True, '%s:%d' % (FZ, body[-1].lineno))
     else:
-        ctx.violation('C17.D3', '%s::timezone_name' % FZ, norm(body[-1]), 'an unmappable tzinfo yields None / another exception',
+        ctx.violation(rule, '%s::timezone_name' % FZ, norm(body[-1]), 'an unmappable tzinfo yields None / another exception',
                       'the last statement is not `raise ValueError`', file=FZ, line=body[-1].lineno, engine='E8')
     # naive values refused
     first_if = [x for x in body if isinstance(x, ast.If) and norm(x.test) == '%s.tzinfo is None' % dt]
     if first_if and isinstance(first_if[0].body[0], ast.Raise) and norm(first_if[0].body[0].exc).startswith('ValueError'):
-        ctx.ob('C17.D3', 'a naive date-time is refused with ValueError', True, '%s:%d' % (FZ, first_if[0].lineno))
+        ctx.ob(rule, 'a naive date-time is refused with ValueError', True, '%s:%d' % (FZ, first_if[0].lineno))
     # UTC shortcut
     offs = [x for x in body if isinstance(x, ast.Assign) and norm(x.value) == '%s.utcoffset()' % dt]
     off = norm(offs[0].targets[0]) if offs else None
@@ -206,15 +215,15 @@ def _timezone_name(ctx, m):
         if isinstance(n, ast.Return) and isinstance(n.value, ast.Constant) and n.value.value == 'UTC':
             p = getattr(n, '_parent', None)
             if isinstance(p, ast.If) and off and norm(p.test) in ('%s == datetime.timedelta(0)' % off, 'not %s' % off):
-                ctx.ob('C17.D3', 'the UTC shortcut is taken only when the offset is zero', True, '%s:%d' % (FZ, n.lineno))
+                ctx.ob(rule, 'the UTC shortcut is taken only when the offset is zero', True, '%s:%d' % (FZ, n.lineno))
             else:
-                ctx.violation('C17.D3', '%s::timezone_name' % FZ, norm(p) if p is not None else norm(n),
+                ctx.violation(rule, '%s::timezone_name' % FZ, norm(p) if p is not None else norm(n),
                               'a +05:00 fixed-offset value is written with the zone UTC', 'return "UTC" is not guarded by '
                               'offset == timedelta(0)', file=FZ, line=n.lineno, engine='E6')
     # scan
     loops = [x for x in body if isinstance(x, ast.For)]
     if len(loops) != 1:
-        ctx.error('C17.D3', 'fallback scan loop not found')
+        ctx.error(rule, 'fallback scan loop not found')
         return
     lp = loops[0]
     names = [norm(e) for e in lp.target.elts] if isinstance(lp.target, ast.Tuple) else []
@@ -230,15 +239,15 @@ def _timezone_name(ctx, m):
                     'pytz.timezone(%s).utcoffset(dt_notz) == %s' % (olson, off)}
             ok = t in good and norm(r.value) == hay
         if ok:
-            ctx.ob('C17.D3', 'a zone is returned by the scan only if its offset at that instant equals the value\'s offset',
+            ctx.ob(rule, 'a zone is returned by the scan only if its offset at that instant equals the value\'s offset',
                    True, '%s:%d' % (FZ, r.lineno))
         else:
-            ctx.violation('C17.D3', '%s::timezone_name' % FZ, norm(p) if p is not None else norm(r),
+            ctx.violation(rule, '%s::timezone_name' % FZ, norm(p) if p is not None else norm(r),
                           'a +05:45 fixed-offset value is written with the first scanned zone, whatever its offset',
                           'a return inside the fallback scan is not dominated by the offset-equality test (guard: %r)' % t,
                           file=FZ, line=r.lineno, engine='E6')
     if norm(lp.iter) in ('list(tz_rmap.items())', 'tz_rmap.items()'):
-        ctx.ob('C17.D3', 'the scan ranges over the mapped zones only', True, '%s:%d' % (FZ, lp.lineno))
+        ctx.ob(rule, 'the scan ranges over the mapped zones only', True, '%s:%d' % (FZ, lp.lineno))
     # every return of a zone must be one of the three justified ones (fast path, UTC shortcut, guarded scan)
     justified = set()
     for r in rets:
@@ -253,7 +262,7 @@ def _timezone_name(ctx, m):
                 justified.add(id(n))
     for n in walk_no_nested(fn):
         if isinstance(n, ast.Return) and id(n) not in justified and n.value is not None:
-            ctx.violation('C17.D3', '%s::timezone_name' % FZ, norm(n),
+            ctx.violation(rule, '%s::timezone_name' % FZ, norm(n),
                           'two fixed-offset values with the same offset on either side of a DST change of the first matching '
                           'zone (e.g. -10:00 in January, then -10:00 in July): the second is written with the zone found for '
                           'the first (`%s`), whose offset at that instant differs -- the written stamp denotes another '
@@ -266,8 +275,8 @@ def _timezone_name(ctx, m):
     if tries and [norm(x) for x in tries[0].body] == ['tz_name = %s.tzinfo.zone' % dt, 'return tz_rmap[tz_name]']:
         hk = sorted(norm(h.type) for h in tries[0].handlers if h.type is not None)
         if hk == ['AttributeError', 'KeyError']:
-            ctx.ob('C17.D3', 'the pytz fast path falls through on KeyError/AttributeError', True, '%s:%d' % (FZ, tries[0].lineno))
+            ctx.ob(rule, 'the pytz fast path falls through on KeyError/AttributeError', True, '%s:%d' % (FZ, tries[0].lineno))
         else:
-            ctx.violation('C17.D3', '%s::timezone_name' % FZ, 'handlers %s' % hk, 'a non-pytz tzinfo raises AttributeError out of '
+            ctx.violation(rule, '%s::timezone_name' % FZ, 'handlers %s' % hk, 'a non-pytz tzinfo raises AttributeError out of '
                           'timezone_name', 'fast path does not catch KeyError and AttributeError', file=FZ,
                           line=tries[0].lineno, engine='E8')
